@@ -9,6 +9,9 @@
 (*   gs     guarantees [slot, core, sigs, len, nexp, res]; sigs = validator indices  *)
 (*          (0-based) of the credential; len / nexp = package length / export count  *)
 (*          of the report; res = digests [s, i, x, z, e, u] (u: 8 LE bytes of gas)   *)
+(*          (+ r, the result kind ok / out-of-gas / panic / bad-exports / ...: the    *)
+(*          sums of 13.9 and 13.16 run over EVERY digest whatever its result, so no   *)
+(*          operator here reads r)                                                   *)
 (*   as     assurances [v, bits] (bits: one 0/1 per core)                            *)
 (*   avail  newly available reports [core, len, nexp]            (W, 11.16)          *)
 (*   acc    accumulation statistics [s, n, u]                    (S, 12.26)          *)
